@@ -277,10 +277,37 @@ def coq_project():
         sh(["coq_makefile", "-f", "_CoqProject", "-o", "Makefile"], cwd=COQ, check=True)
 
 
-def coq_scan_forbidden():
+def coq_deps_closure(target_v):
+    """.v files the given file depends on (transitively), from coq_makefile's dependency file"""
+    depf = os.path.join(COQ, ".Makefile.d")
+    deps = {}
+    if os.path.exists(depf):
+        for line in open(depf).read().replace("\\\n", " ").splitlines():
+            if ":" not in line:
+                continue
+            lhs, rhs = line.split(":", 1)
+            tg = [x for x in lhs.split() if x.endswith(".vo")]
+            if not tg:
+                continue
+            src = tg[0][:-1]
+            deps[src] = [x[:-1] for x in rhs.split() if x.endswith(".vo")]
+    seen, todo = set(), [target_v]
+    while todo:
+        x = todo.pop()
+        if x in seen:
+            continue
+        seen.add(x)
+        todo += deps.get(x, [])
+    return sorted(seen)
+
+
+def coq_scan_forbidden(files=None):
     bad = []
-    for s in coq_sources():
-        txt = open(os.path.join(COQ, s)).read()
+    for s in (files if files is not None else coq_sources()):
+        pth = os.path.join(COQ, s)
+        if not os.path.exists(pth):
+            continue
+        txt = open(pth).read()
         txt = re.sub(r"\(\*.*?\*\)", "", txt, flags=re.S)
         for m in FORBIDDEN.finditer(txt):
             bad.append("%s: %s" % (s, m.group(0)))
@@ -294,9 +321,16 @@ def run_generators():
 
 
 def coq_make(targets, timeout=1500):
-    with Lock("coq.lock"):
+    """regenerate the generated files, then build; the (possibly long) build lock is only taken
+    when something is out of date, so that a check does not queue behind an unrelated build"""
+    with Lock("gen.lock"):
         run_generators()
         coq_project()
+    if targets:
+        rc, out = sh(["make", "-q"] + targets, cwd=COQ, timeout=300)
+        if rc == 0:
+            return "up to date"
+    with Lock("coq.lock"):
         rc, out = sh(["make", "-j%d" % NCPU] + targets, cwd=COQ, timeout=timeout)
         if rc != 0:
             raise BuildError("coq", out)
@@ -324,7 +358,7 @@ def coq_property(pid, timeout=900):
     src_nc = re.sub(r"\(\*.*?\*\)", "", src, flags=re.S)
     theorems = re.findall(r"^\s*(?:Theorem|Corollary)\s+([A-Za-z0-9_']+)", src_nc, flags=re.M)
     assumptions = parse_assumptions(out)
-    bad = coq_scan_forbidden()
+    bad = coq_scan_forbidden(coq_deps_closure("Props/Properties_%s.v" % pid))
     if bad:
         raise BuildError("coq-forbidden", "\n".join(bad))
     return {"theorems": theorems, "assumptions": assumptions, "raw": out}
